@@ -28,7 +28,32 @@ PROPS = {
                     "statement keeps its semicolon token and trailing trivia (pair pushed as returned), in the same position.",
         not_decided=["in-range statements come out as in whole-file formatting (relates two runs)", "stmt_block::format_stmt_block touches only nested blocks (assumed, class C)"],
         assumptions=[]),
-    "C02": dict(units=["expr", "block", "lib"],
+    "C03": dict(units=["tok"],
+        explanation="token/trivia layer: format_token keeps a comment's kind, long-bracket level and text (line comments right-trimmed, block comments newline-normalised) and "
+                    "creates only whitespace; format_token_reference / format_symbol / format_eof re-emit the comments of the token they format or replace "
+                    "(stated over the comment subsequence cms()); pop_until_no_whitespace removes whitespace only.",
+        not_decided=["load_token_trivia's loop and format_end_token's reverse pass: assumed contracts (listed as stubs)",
+                     "comment transplant sites built from iterator-adapter chains (parenthesis removal, semicolon removal, hang_binop, punctuated lists, table fields): holes; "
+                     "a comment dropped inside such a chain is not visible to this unit",
+                     "code never ends up inside a comment: only the `line comment is followed by a newline` necessary condition (C01.line_comment_terminated)"],
+        assumptions=["TokenReference::new/leading_trivia/trailing_trivia behave as a triple of sequences (class A)"]),
+    "C04": dict(units=["tok"],
+        explanation="quote choice (get_quote_to_use against the counting spec), number rewriting limited to inserting `0` before a leading `.` / after `-` "
+                    "(real text of the Number arm through string wrappers; the `.expect` cannot fail), long-bracket strings keep level and only get the newline rewrite.",
+        not_decided=["escape rewriting of quoted strings (regexes RE / UNNECESSARY_ESCAPES + closure): assumed value-preserving (verif::rewrite_escapes); C04's escape clause is undecided",
+                     "that `0.5` and `.5` denote the same number is the reader's arithmetic, no numeric-literal semantics is specified"],
+        assumptions=["std string primitives agree with their Seq<char> specs (class B wrappers)"]),
+    "C10": dict(units=["ctx", "tok", "lib"],
+        explanation="single source of newline/indent trivia proved against the configuration (ctx); format_token normalises newlines inside block comments/long strings and right-trims line comments; "
+                    "format_eof ends a non-empty trivia list with exactly one configured newline; format_code returns the printed AST unmodified.",
+        not_decided=["that every trivia-construction site in functions outside the units uses these helpers"],
+        assumptions=["TokenType::tabs(n)/spaces(n) print n tabs/spaces (class A)", "indent arithmetic does not overflow usize (nesting depth x indent_width), stated as a precondition"]),
+    "C11": dict(units=["ctx", "tok"],
+        explanation="get_quote_to_use equals the quote-choice table of the property; should_omit_string/table_parens equal the call_parentheses table; "
+                    "create_function_definition/call_trivia produce one space exactly for the option values that name the case.",
+        not_decided=["format_function_args / format_call (call-parentheses insertion/removal incl. the `obscure` exception): unit args, when present"],
+        assumptions=[]),
+    "C02": dict(units=["expr", "block", "lib", "tok"],
         explanation="expression spine: same obligations as C05 (operator tree, leaves, operators)",
         not_decided=["statement/block/args/token layers are decided in their own units (see runs)"],
         assumptions=[]),
@@ -84,4 +109,18 @@ WITNESSES = {
     "C08.": BLOCK_WITNESSES, "C09.": BLOCK_WITNESSES, "C01.semicolon": BLOCK_WITNESSES[-2:], "C01.next_starts": BLOCK_WITNESSES[-2:],
     "C05.": EXPR_WITNESSES,
     "C01.double_minus_guard": EXPR_WITNESSES[1:3],
+}
+
+NOT_APPLICABLE = {
+    "C06": "two-run relational property over the whole layout engine with a re-lex in between; no per-function contract expresses it (DESIGN.md §9)",
+    "C16": "file selection is done by the ignore/globset crates and inline code of the 300-line format(); no function boundary carries the property (DESIGN.md §9)",
+    "C19": "a schedule property of std atomics and a thread pool; Kani has no threads and Verus needs its own permission-carrying atomics which the real code does not use (DESIGN.md §9)",
+    "C07": "not claimed yet: aggregate of the per-function panic/termination obligations is under construction",
+    "C12": "not claimed yet: unit sort under construction",
+    "C13": "not claimed yet: unit cli_io under construction",
+    "C14": "not claimed yet: unit cli_io under construction",
+    "C15": "not claimed yet: unit config under construction",
+    "C17": "not claimed yet: unit cli_io under construction",
+    "C18": "not claimed yet: unit diff under construction",
+    "C20": "not claimed yet: Kani harnesses for the option conversions under construction",
 }
